@@ -28,7 +28,8 @@ HERE = os.path.dirname(os.path.abspath(__file__))
 ROOT = os.path.dirname(HERE)
 sys.path.insert(0, ROOT)
 PY = '/venv/bin/python'
-SIBLING = {'p': 'g', 'q': 'g', 'r': 'h', 's': 'h', 't': 'h', 'u': 'i', 'v': 'i', 'w': 'i', 'x': 'j', 'y': 'j', 'z': 'j'}
+SIBLING = {'p': 'g', 'q': 'g', 'r': 'h', 's': 'h', 't': 'h', 'u': 'i', 'v': 'i', 'w': 'i', 'x': 'j', 'y': 'j', 'z': 'j',
+           'l': 'k', 'm': 'k', 'n': 'k'}
 
 
 def job(args):
